@@ -1421,8 +1421,9 @@ NOT_CLAIMED = ["coverage of the body by the heading-section units: discharged on
                "section scope, and docx documents with body text before the first heading or with a heading without text are recorded "
                "findings (C03-docx-body-before-first-heading, C03-docx-heading-without-text) excluded from that scope",
                "get_full_text of ppt/xls/rtf/doc/docx/odt (the statement lists eleven formats; these six are documented otherwise)",
-               "end-to-end extraction (that page.text IS the text of PDF page k etc.) is C02's; here unit k == element k of the content object "
-               "and element k == source item k at the construction sites"]
+               "that the text of element k is complete is discharged only for odp / pptx slide text (fragment contracts shared with C02) and the "
+               ".eml body (contract shared with C16); for the other formats it is covered by the BOUNDED generated-document scope only "
+               "(C02 owns the unbounded claim).  Recorded finding: mbox keeps only the first inline text part (C03-mbox-later-inline-parts-dropped)"]
 ASSUMPTIONS = ["DT-TYPED: fields of the content dataclasses hold values of their declared types (lists are finite)",
                "class invariant used for the position clause of stored-number types (ppt/pptx/odp: slide_number == position; epub: "
                "chapter numbers strictly increasing from >= 1) is established at the construction sites (part d) and assumed for "
@@ -1431,6 +1432,10 @@ ASSUMPTIONS = ["DT-TYPED: fields of the content dataclasses hold values of their
                "PY-RE: compiled-pattern .sub is total and uninterpreted",
                "PY-GEN: generator = procedure appending to the ghost sequence of unit observations",
                "PY-STR", "PY-EXC / EXC-ANY"]
-BOUNDED = ["C03/replay::heading-sections[DocContent|DocxContent|OdtContent]/bounded#body-text-in-the-unit-of-its-section.BOUNDED: every document of "
+BOUNDED = ["C03/replay::generated-documents[documents:<format>]/bounded#units-mirror-the-generated-document.BOUNDED (pdf, pptx, odp, epub, rtf, xlsx, "
+           "ods, eml, mbox, ppt, txt, html): small generated documents read with the real extractor -- unit per element at its source "
+           "position, every generated text token exactly once and in the unit of its element, full text == joined unit texts; the bounds are "
+           "listed per obligation in the evidence (never counted as discharged)",
+           "C03/replay::heading-sections[DocContent|DocxContent|OdtContent]/bounded#body-text-in-the-unit-of-its-section.BOUNDED: every document of "
            "<= 5 paragraphs over {h1, h2 (fixed, hence repeated, texts), heading without text, body paragraph with distinct / repeated text, "
            "empty paragraph} built natively and compared with the section spec of replay/C03.py (never counted as discharged)"]
